@@ -36,6 +36,7 @@ from __future__ import annotations
 import datetime as dt
 import decimal
 import json
+import re
 from decimal import Decimal
 
 from mc import core
@@ -55,11 +56,38 @@ CODE = {"num": 0, "float": 1, "str": 2, "date": 3, "ts": 8, "bytes": 11, "bool":
 # SQL rendering of argument values
 
 
+# Snowflake has two syntaxes for a string constant: single-quoted (backslash is an escape character, a quote is
+# doubled) and dollar-quoted $$…$$ (raw: nothing is escaped).  Every string-constant argument the generators write
+# (patterns, subjects, replacements, separators, trim characters, date / number strings, digest messages) goes through
+# q(), and the whole case alphabet is generated once per style of QUOTING: the same value in either syntax must give the
+# same documented result.  A value containing $$ (or ending in $) cannot be dollar-quoted and stays single-quoted.
+QUOTING = ("single", "dollar")
+_STYLE = ["single"]
+
+
 def q(s):
-    """A Snowflake single-quoted string constant: backslash and quote are escaped."""
+    """A Snowflake string constant holding exactly the characters of s, in the syntax of the current style."""
     if s is None:
         return "NULL"
+    if _STYLE[0] == "dollar" and "$$" not in s and not s.endswith("$"):
+        return "$$" + s + "$$"
     return "'" + s.replace("\\", "\\\\").replace("'", "''") + "'"
+
+
+_DOLLAR_RAW = re.compile(r"\$\$(?:[^$]|\$(?!\$))*?[\\'](?:[^$]|\$(?!\$))*?\$\$")
+
+
+def dq():
+    """Class suffix for constructs whose rewrite looks at whether a string argument is a literal (the date / time
+    conversions): there the constant syntax is part of the input shape even when the characters are the same."""
+    return ",quoting=dollar" if _STYLE[0] == "dollar" else ""
+
+
+def quoting_feature(sql):
+    """Class suffix of a case: ',quoting=dollar' iff the SQL text holds a dollar-quoted constant whose text differs
+    from its single-quoted spelling (it contains a backslash or a quote).  For all other values the two syntaxes carry
+    the same characters and the cases share a class."""
+    return ",quoting=dollar" if _STYLE[0] == "dollar" and _DOLLAR_RAW.search(sql) else ""
 
 
 def lit(v, kind=None):
@@ -98,7 +126,7 @@ def case(fn, sql, thunk, kind, cls, rej_ok=False, meta=None, ctx=False, out=None
         if stats is not None:
             stats["not_demanded"] = stats.get("not_demanded", 0) + 1
         return None
-    c = {"fn": fn, "sql": sql, "exp": exp, "rej_ok": rej_ok, "cls": cls, "ctx": ctx and exp[0] == "val"}
+    c = {"fn": fn, "sql": sql, "exp": exp, "rej_ok": rej_ok, "cls": cls, "ctx": ctx and exp[0] == "val", "quoting": quoting_feature(sql)}
     if out is not None:
         out.append(c)
     return c
@@ -348,6 +376,10 @@ REJ_OK_TODAY = {
     "TO_TIMESTAMP:int_of_ms_us_ns_magnitude": "the magnitude rule for integers >= 31536000000 is not implemented",
     "TO_TIMESTAMP:date_or_timestamp_expression": "to_timestamp(DATE|TIMESTAMP) / strptime(DATE, …) do not exist in DuckDB",
     "TO_TIMESTAMP:varchar_column": "only string literals become casts; a column reaches to_timestamp(DOUBLE) (TO_TIMESTAMP_NTZ works)",
+    "TO_TIMESTAMP:dollar_quoted_string": "a $$…$$ constant is not a string Literal for sqlglot: it reaches DuckDB's to_timestamp(DOUBLE)",
+    "TO_TIMESTAMP_NTZ:dollar_quoted_string_not_in_strptime_format": "a $$…$$ constant goes to strptime(…, '%Y-%m-%d %H:%M:%S') instead of a cast",
+    "TO_DATE:dollar_quoted_format": "sqlglot only converts a format given as a string Literal; $$DD/MM/YYYY$$ reaches strptime unconverted",
+    "TO_TIMESTAMP:dollar_quoted_format": "same for TO_TIMESTAMP / TO_TIMESTAMP_NTZ with a $$…$$ format",
     "TO_TIMESTAMP:int_expression_with_scale": "a negative literal (unary minus) with a scale argument is not recognised as an epoch value",
     "TO_TIMESTAMP_NTZ:int_expression": "negative literal / integer column end up in strptime(<int>, …)",
     "TO_DECIMAL:format_argument": "NotImplementedError raised by transforms.to_decimal / try_to_decimal",
@@ -503,17 +535,17 @@ def gen_regexp_replace(tier, out, stats):
                     case(fn, f"REGEXP_REPLACE({', '.join(a2)})", th, "str", f"fn={fn},arity={len(a2)}{feat}", rej_ok=rej("REGEXP_REPLACE:position_occurrence_parameters"), out=out, stats=stats)
     # NULL pattern / NULL replacement, pattern and subject from a column
     for s in ["abcabc"]:
-        case(fn, f"REGEXP_REPLACE({q(s)}, NULL, 'X')", lambda: None, "str", f"fn={fn},pattern=NULL", out=out, stats=stats)
-        case(fn, f"REGEXP_REPLACE({q(s)}, 'b', NULL)", lambda: None, "str", f"fn={fn},replacement=NULL", out=out, stats=stats)
+        case(fn, f"REGEXP_REPLACE({q(s)}, NULL, {q('X')})", lambda: None, "str", f"fn={fn},pattern=NULL", out=out, stats=stats)
+        case(fn, f"REGEXP_REPLACE({q(s)}, {q('b')}, NULL)", lambda: None, "str", f"fn={fn},replacement=NULL", out=out, stats=stats)
         for p in _t(tier, ["b"], ["[a-c]"]):
             n = len(sf.regexp_replace(s, p, "X").split("X")) - 1
-            case(fn, _col(f"REGEXP_REPLACE({q(s)}, c, 'X')", q(p)), lambda s=s, p=p: sf.regexp_replace(s, p, "X"), "str",
+            case(fn, _col(f"REGEXP_REPLACE({q(s)}, c, {q('X')})", q(p)), lambda s=s, p=p: sf.regexp_replace(s, p, "X"), "str",
                  f"fn={fn},pattern=column,matches={'many' if n > 1 else 'one'}", out=out, stats=stats)
-            case(fn, _col(f"REGEXP_REPLACE(c, {q(p)}, 'X')", q(s)), lambda s=s, p=p: sf.regexp_replace(s, p, "X"), "str",
+            case(fn, _col(f"REGEXP_REPLACE(c, {q(p)}, {q('X')})", q(s)), lambda s=s, p=p: sf.regexp_replace(s, p, "X"), "str",
                  f"fn={fn},subject=column", out=out, stats=stats)
-        case(fn, _col("REGEXP_REPLACE('abcabc', c, 'X')", q("c")), lambda: sf.regexp_replace("abcabc", "c", "X"), "str",
+        case(fn, _col(f"REGEXP_REPLACE({q('abcabc')}, c, {q('X')})", q("c")), lambda: sf.regexp_replace("abcabc", "c", "X"), "str",
              f"fn={fn},pattern=column,matches=many", out=out, stats=stats)
-        case(fn, _col("REGEXP_REPLACE('abcabc', c, 'X')", q("bca")), lambda: sf.regexp_replace("abcabc", "bca", "X"), "str",
+        case(fn, _col(f"REGEXP_REPLACE({q('abcabc')}, c, {q('X')})", q("bca")), lambda: sf.regexp_replace("abcabc", "bca", "X"), "str",
              f"fn={fn},pattern=column,matches=one", out=out, stats=stats)
 
 
@@ -568,10 +600,10 @@ TD_STRINGS = {
     T: ["1969-12-31", "2023-12-31", "9999-12-31", "2024-02-29T23:59:59", "2024-02-29 23:59:59.999", "2023-02-29", "2024-13-01"],
 }
 # forms fakesnow makes no attempt at (other AUTO formats, integer strings) or passes to strptime: right value or rejected
-TD_REJ_OK = {
-    Q: [("TO_DATE('31-Dec-2020')", D(2020, 12, 31)), ("TO_DATE('29/02/2024', 'DD/MM/YYYY')", D(2024, 2, 29))],
-    T: [("TO_DATE('02/29/2024')", D(2024, 2, 29)), ("TO_DATE('1700000000')", D(2023, 11, 14)), ("TO_DATE('2024.02.29', 'YYYY.MM.DD')", D(2024, 2, 29)),
-        ("TO_DATE('2024-02-29', 'YYYY-MM-DD')", D(2024, 2, 29))],
+TD_REJ_OK = {  # (arguments, value)
+    Q: [(("31-Dec-2020",), D(2020, 12, 31)), (("29/02/2024", "DD/MM/YYYY"), D(2024, 2, 29))],
+    T: [(("02/29/2024",), D(2024, 2, 29)), (("1700000000",), D(2023, 11, 14)), (("2024.02.29", "YYYY.MM.DD"), D(2024, 2, 29)),
+        (("2024-02-29", "YYYY-MM-DD"), D(2024, 2, 29))],
 }
 
 
@@ -579,7 +611,7 @@ def gen_to_date(tier, out, stats):
     for name in ["TO_DATE"]:
         for s in _t(tier, TD_STRINGS[Q], TD_STRINGS[T]):
             shape = "arg=date_string" if len(s) == 10 and s[4] == "-" else "arg=timestamp_string" if s[0].isdigit() else "arg=garbage"
-            c = case(name, f"{name}({q(s)})", lambda s=s: sf.to_date(s), "date", f"fn={name},{shape}", ctx=(s == "2024-02-29 12:13:14"), stats=stats)
+            c = case(name, f"{name}({q(s)})", lambda s=s: sf.to_date(s), "date", f"fn={name},{shape}{dq()}", ctx=(s == "2024-02-29 12:13:14"), stats=stats)
             if c["exp"][0] == "err":
                 c["cls"] += ",invalid=yes"
             out.append(c)
@@ -588,10 +620,11 @@ def gen_to_date(tier, out, stats):
         case(name, f"{name}('2024-02-29 23:59:59'::TIMESTAMP_NTZ)", lambda: D(2024, 2, 29), "date", f"fn={name},arg=timestamp", ctx=True, out=out, stats=stats)
         case(name, f"{name}(TO_TIMESTAMP(86399))", lambda: D(1970, 1, 1), "date", f"fn={name},arg=timestamp", out=out, stats=stats)
         case(name, _col(f"{name}(c)", q("2024-02-29")), lambda: D(2024, 2, 29), "date", f"fn={name},arg=string_column", out=out, stats=stats)
-    for sql, v in _t(tier, TD_REJ_OK[Q], TD_REJ_OK[T]):
-        fmt = sql.count(",") > 0  # an explicit format is answered today (strptime) and must stay answered
-        case("TO_DATE", sql, lambda v=v: v, "date", "fn=TO_DATE,format=given" if fmt else "fn=TO_DATE,arg=other_auto_format",
-             rej_ok=rej("TO_DATE:non_iso_auto_format", not fmt), out=out, stats=stats)
+    for targs, v in _t(tier, TD_REJ_OK[Q], TD_REJ_OK[T]):
+        sql = f"TO_DATE({', '.join(q(x) for x in targs)})"
+        fmt = len(targs) > 1  # an explicit format is answered today (strptime) and must stay answered
+        case("TO_DATE", sql, lambda v=v: v, "date", ("fn=TO_DATE,format=given" if fmt else "fn=TO_DATE,arg=other_auto_format") + dq(),
+             rej_ok=rej("TO_DATE:non_iso_auto_format", not fmt) or rej("TO_DATE:dollar_quoted_format", fmt and _STYLE[0] == "dollar"), out=out, stats=stats)
 
 
 # ---- TO_TIMESTAMP / TO_TIMESTAMP_NTZ --------------------------------------------------------------------------------
@@ -620,7 +653,14 @@ def gen_to_timestamp(tier, out, stats):
     for name in ["TO_TIMESTAMP", "TO_TIMESTAMP_NTZ"]:
         for s in _t(tier, TT_STRINGS[Q], TT_STRINGS[T]):
             shape = "arg=int_string" if s.lstrip("-").isdigit() else "arg=date_string" if len(s) == 10 else "arg=timestamp_string" if s[0].isdigit() else "arg=garbage"
-            c = case(name, f"{name}({q(s)})", lambda s=s: sf.to_timestamp(s), "ts", f"fn={name},{shape}", ctx=(s == "2024-02-29 12:13:14"), stats=stats)
+            # a dollar-quoted constant is not a Literal for sqlglot, so the TO_TIMESTAMP rewrites treat it like an
+            # expression: the quoting is part of the input shape here even though the characters are the same
+            dollar = _STYLE[0] == "dollar"
+            plain_ts = re.fullmatch(r"\d{4}-\d\d-\d\d \d\d:\d\d:\d\d", s) is not None
+            rj = dollar and (rej("TO_TIMESTAMP:dollar_quoted_string", name == "TO_TIMESTAMP")
+                             or rej("TO_TIMESTAMP_NTZ:dollar_quoted_string_not_in_strptime_format", name == "TO_TIMESTAMP_NTZ" and not plain_ts))
+            c = case(name, f"{name}({q(s)})", lambda s=s: sf.to_timestamp(s), "ts", f"fn={name},{shape}" + (",quoting=dollar" if dollar else ""),
+                     rej_ok=rj, ctx=(s == "2024-02-29 12:13:14"), stats=stats)
             if c["exp"][0] == "err":
                 c["cls"] += ",invalid=yes"
             out.append(c)
@@ -644,8 +684,8 @@ def gen_to_timestamp(tier, out, stats):
              rej_ok=rej("TO_TIMESTAMP:varchar_column", name == "TO_TIMESTAMP"), out=out, stats=stats)
         case(name, _col(f"{name}(c)", "1700000000"), lambda: sf.to_timestamp(1700000000), "ts", f"fn={name},arg=int_expression",
              rej_ok=rej("TO_TIMESTAMP_NTZ:int_expression", name == "TO_TIMESTAMP_NTZ"), out=out, stats=stats)
-        case(name, f"{name}('29/02/2024 12:13:14', 'DD/MM/YYYY HH24:MI:SS')", lambda: TS(2024, 2, 29, 12, 13, 14), "ts",
-             f"fn={name},format=given", out=out, stats=stats)
+        case(name, f"{name}({q('29/02/2024 12:13:14')}, {q('DD/MM/YYYY HH24:MI:SS')})", lambda: TS(2024, 2, 29, 12, 13, 14), "ts",
+             f"fn={name},format=given{dq()}", rej_ok=rej("TO_TIMESTAMP:dollar_quoted_format", _STYLE[0] == "dollar"), out=out, stats=stats)
 
 
 # ---- TO_DECIMAL / TO_NUMBER / TO_NUMERIC and TRY_ forms -------------------------------------------------------------
@@ -711,7 +751,7 @@ def gen_to_decimal(tier, out, stats):
                         out.append(c)
                 case(name, f"{name}(NULL{a})", lambda: None, "num", f"fn={tr}TO_DECIMAL,src=NULL", meta=meta, out=out, stats=stats)
             # format argument: NotImplementedError in fakesnow -> right value or rejected
-            case(name, f"{name}('12.345', '99.999', 10, 2)", lambda: Decimal("12.35"), "num", f"fn={tr}TO_DECIMAL,format=given",
+            case(name, f"{name}({q('12.345')}, {q('99.999')}, 10, 2)", lambda: Decimal("12.35"), "num", f"fn={tr}TO_DECIMAL,format=given",
                  meta={"precision": 10, "scale": 2}, rej_ok=rej("TO_DECIMAL:format_argument"), out=out, stats=stats)
             # from a column, from a FLOAT away from midpoints
             c = case(name, _col(f"{name}(c, 10, 1)", q("12.35")), lambda ref=ref: ref("12.35", 10, 1), "num", f"fn={tr}TO_DECIMAL,src=string_column",
@@ -838,7 +878,7 @@ def gen_dateadd(tier, out, stats):
             v = D(2024, 2, 29)
             th = lambda p=p, n=n, v=v: sf.dateadd(p, n, v)  # noqa: E731
             case("DATEADD", f"DATEADD({p}, {n}, CAST('2024-02-29' AS DATE))", th, kind, _da_cls(p, "date", n, v, ",spelling=CAST"), out=out, stats=stats)
-            case("DATEADD", f"DATEADD({p}, {n}, TO_DATE('2024-02-29'))", th, kind, _da_cls(p, "date", n, v, ",spelling=TO_DATE"), out=out, stats=stats)
+            case("DATEADD", f"DATEADD({p}, {n}, TO_DATE({q('2024-02-29')}))", th, kind, _da_cls(p, "date", n, v, ",spelling=TO_DATE" + dq()), out=out, stats=stats)
             case("DATEADD", _col(f"DATEADD({p}, {n}, c)", "'2024-02-29'::DATE"), th, kind, _da_cls(p, "date_column", n, v), out=out, stats=stats)
             case("TIMESTAMPADD", f"TIMESTAMPADD({p}, {n}, '2024-02-29'::DATE)", th, kind, _da_cls(p, "date", n, v, ",name=TIMESTAMPADD"), out=out, stats=stats)
             tv = TS(2024, 2, 29, 12, 30, 45)
@@ -932,7 +972,7 @@ def gen_sha2(tier, out, stats):
                 # only SHA-256 exists in DuckDB; other documented sizes: right digest or rejected
                 case(name, sql, lambda m=m, b=b, ref=ref: ref(m, b or 256), kind, cls, rej_ok=rej("SHA2:digest_size_other_than_256", b not in (None, 256)), ctx=(m == "abc" and b is None), out=out, stats=stats)
         case(name, _col(f"{name}(c)", q("abc")), lambda ref=ref: ref("abc"), kind, f"fn={name},msg=column", out=out, stats=stats)
-        case(name, f"{name}('abc', 100)", lambda ref=ref: ref("abc", 100), kind, f"fn={name},digest_size=invalid", out=out, stats=stats)
+        case(name, f"{name}({q('abc')}, 100)", lambda ref=ref: ref("abc", 100), kind, f"fn={name},digest_size=invalid", out=out, stats=stats)
 
 
 # ---- EQUAL_NULL -----------------------------------------------------------------------------------------------------
@@ -963,13 +1003,21 @@ def expr_cases(tier):
     """All expression cases of a tier (deterministic order), with statistics."""
     if tier not in _CASES:
         out, stats = [], {}
-        for g in GENERATORS:
-            g(tier, out, stats)
+        for style in QUOTING:
+            _STYLE[0] = style
+            try:
+                for g in GENERATORS:
+                    g(tier, out, stats)
+            finally:
+                _STYLE[0] = "single"
         seen = set()
         uniq = []
-        for c in out:  # the same SQL text can be produced twice by overlapping alphabets: keep one
+        for c in out:  # the same SQL text is produced twice when a case has no string constant (or by overlapping alphabets): keep one
             if c["sql"] not in seen:
                 seen.add(c["sql"])
+                qf = c.pop("quoting")
+                if "quoting=dollar" not in c["cls"]:
+                    c["cls"] += qf
                 uniq.append(c)
         _CASES[tier] = (uniq, stats)
     return _CASES[tier]
